@@ -163,12 +163,15 @@ func (em *emitter) _emitExpr(expr ast.Expression, dstType reflect.Type, reg int8
 		assertType := em.typ(expr.Type)
 		pos := expr.Pos()
 		if canEmitDirectly(assertType.Kind(), dstType.Kind()) {
+			// The Assert instruction panics if the assertion fails.
+			em.fb.addPosAndPath(pos)
 			em.fb.emitAssert(exprReg, assertType, reg)
 			em.fb.emitPanic(0, exprType, pos)
 			return reg, false
 		}
 		em.fb.enterScope()
 		tmp := em.fb.newRegister(assertType.Kind())
+		em.fb.addPosAndPath(pos)
 		em.fb.emitAssert(exprReg, assertType, tmp)
 		em.fb.emitPanic(0, exprType, pos)
 		em.changeRegister(false, tmp, reg, assertType, dstType)
